@@ -300,3 +300,353 @@ Proof.
   destruct (rlencode_spec a 1 (Z.le_refl 1)) as [_ ->]. cbn [index_with]. unfold rle_spec.
   rewrite runs_of_pairs. now rewrite index_runs_spec.
 Qed.
+
+(* ------------------------------------------- consequences for the offsets of a column *)
+
+Lemma NonDecr_inv x r : NonDecr (x :: r) -> NonDecr r /\ Forall (fun y => x <= y) r.
+Proof. intros H. inversion H; subst. split; assumption. Qed.
+
+(** in a non-decreasing column the entries smaller than b form a prefix *)
+Lemma sorted_count_lt a : NonDecr a -> forall b k, (k < length a)%nat ->
+  (Z.of_nat k < count_lt a b <-> nth k a 0 < b).
+Proof.
+  induction a as [|x r IH]; intros Hs b k Hk; cbn [length] in Hk; [lia|].
+  apply NonDecr_inv in Hs. destruct Hs as [Hs Hall].
+  rewrite count_lt_cons. pose proof (count_lt_bounds r b) as Hb.
+  destruct (x <? b) eqn:Ex.
+  - destruct k as [|k']; cbn [nth]; [lia|].
+    rewrite <- (IH Hs b k') by lia. lia.
+  - assert (Hz : count_lt r b = 0).
+    { apply count_lt_zero. eapply Forall_impl; [|exact Hall]. cbn. intros; lia. }
+    rewrite Hz. destruct k as [|k']; cbn [nth]; [lia|].
+    assert (x <= nth k' r 0).
+    { rewrite Forall_forall in Hall. apply Hall. apply nth_In. lia. }
+    lia.
+Qed.
+
+(** the CSR invariant the reader relies on: row b occupies exactly the positions
+    offset[b] <= k < offset[b+1] *)
+Theorem csr_row_iff a b k : NonDecr a -> (k < length a)%nat ->
+  (count_lt a b <= Z.of_nat k < count_lt a (b + 1) <-> nth k a 0 = b).
+Proof.
+  intros Hs Hk. pose proof (sorted_count_lt a Hs b k Hk). pose proof (sorted_count_lt a Hs (b + 1) k Hk). lia.
+Qed.
+
+Theorem offsets_props n a : 0 <= n -> NonDecr a -> Forall (fun x => 0 <= x < n) a ->
+  let off := offsets_of n a in
+  length off = Z.to_nat (n + 1) /\
+  nth 0 off 0 = 0 /\
+  nth (Z.to_nat n) off 0 = zlen a /\
+  (forall b b', (b <= b')%nat -> (b' <= Z.to_nat n)%nat -> nth b off 0 <= nth b' off 0) /\
+  (forall k, (k < length a)%nat ->
+     nth (Z.to_nat (nth k a 0)) off 0 <= Z.of_nat k < nth (Z.to_nat (nth k a 0 + 1)) off 0).
+Proof.
+  intros Hn Hs Hr off. subst off. split; [now apply offsets_of_length|].
+  split; [|split; [|split]].
+  - rewrite offsets_of_nth by lia. apply count_lt_zero. eapply Forall_impl; [|exact Hr]. cbn. intros; lia.
+  - rewrite offsets_of_nth by lia. rewrite Z2Nat.id by lia. apply count_lt_all.
+    eapply Forall_impl; [|exact Hr]. cbn. intros; lia.
+  - intros b b' Hb Hb'. rewrite !offsets_of_nth by lia. apply count_lt_mono. lia.
+  - intros k Hk. assert (Hv : 0 <= nth k a 0 < n).
+    { rewrite Forall_forall in Hr. apply Hr. now apply nth_In. }
+    rewrite !offsets_of_nth by lia. rewrite !Z2Nat.id by lia.
+    now apply csr_row_iff.
+Qed.
+
+(* ---------------------------------------------------------------- ValidCSR *)
+
+(** the published schema of one data collection, as a proposition over its raw content *)
+Definition ValidCSR (c : cooler) : Prop :=
+  zlen (bin1 c) = nnz c /\ zlen (bin2 c) = nnz c /\ zlen (counts c) = nnz c /\
+  SSorted (pixels_of c) /\
+  (forall p, In p (pixels_of c) -> 0 <= row p < nbins c /\ 0 <= col p < nbins c) /\
+  (symmetric_upper c = true -> forall p, In p (pixels_of c) -> row p <= col p) /\
+  bin1_offset c = offsets_of (nbins c) (bin1 c) /\
+  zlen (bin_chrom c) = nbins c /\ NonDecr (bin_chrom c) /\
+  (forall x, In x (bin_chrom c) -> 0 <= x < nchroms c) /\
+  chrom_offset c = offsets_of (nchroms c) (bin_chrom c) /\
+  sum c = sumZ (counts c).
+
+Lemma list_eqb_spec l1 : forall l2, list_eqb l1 l2 = true <-> l1 = l2.
+Proof.
+  induction l1 as [|x r IH]; intros [|y r2]; cbn [list_eqb]; try (split; [discriminate|discriminate]); [tauto|].
+  rewrite andb_true_iff, IH, Z.eqb_eq. split; [intros [-> ->]; reflexivity|intros H; inversion H; auto].
+Qed.
+
+Lemma inrange_b_spec n l : inrange_b n l = true <->
+  forall p, In p l -> 0 <= row p < n /\ 0 <= col p < n.
+Proof.
+  unfold inrange_b. rewrite forallb_forall. split; intros H p Hp; specialize (H p Hp); lia.
+Qed.
+Lemma upper_b_spec l : upper_b l = true <-> forall p, In p l -> row p <= col p.
+Proof.
+  unfold upper_b. rewrite forallb_forall. split; intros H p Hp; specialize (H p Hp); lia.
+Qed.
+Lemma inrange1_b_spec n l : inrange1_b n l = true <-> forall x, In x l -> 0 <= x < n.
+Proof.
+  unfold inrange1_b. rewrite forallb_forall. split; intros H p Hp; specialize (H p Hp); lia.
+Qed.
+
+(** the executable checker decides ValidCSR *)
+Theorem valid_csr_b_spec c : valid_csr_b c = true <-> ValidCSR c.
+Proof.
+  unfold valid_csr_b, ValidCSR.
+  rewrite !andb_true_iff, !Z.eqb_eq, ssorted_b_spec, inrange_b_spec, !list_eqb_spec,
+          nondecr_b_spec, inrange1_b_spec.
+  destruct (symmetric_upper c).
+  - rewrite upper_b_spec. intuition congruence.
+  - intuition congruence.
+Qed.
+
+Corollary valid_csr_b_sound c : valid_csr_b c = true -> ValidCSR c.
+Proof. apply valid_csr_b_spec. Qed.
+
+(* ---------------------------------------------------------------- create_valid *)
+
+Lemma combine_rcv px : combine (combine (map row px) (map col px)) (map val px) = px.
+Proof.
+  induction px as [|[[r c] v] t IH]; [reflexivity|]. cbn [map combine]. rewrite IH. reflexivity.
+Qed.
+
+Lemma zlen_map {A B} (f : A -> B) l : zlen (map f l) = zlen l.
+Proof. unfold zlen. now rewrite map_length. Qed.
+
+Lemma ssorted_rows_nondecr px : SSorted px -> NonDecr (map row px).
+Proof.
+  unfold SSorted, NonDecr, keys. induction px as [|p t IH]; intros H; cbn [map] in *; [constructor|].
+  inversion H as [|? ? Ht Hall]; subst. constructor; [now apply IH|].
+  rewrite Forall_map in Hall |- *. eapply Forall_impl; [|exact Hall].
+  intros q Hq. unfold klt, row in *. lia.
+Qed.
+
+(** T3: a strictly sorted, in-range (upper-triangular when symmetric) pixel stream over a
+    bin table whose chromosome column is non-decreasing with ids in [0, n_chroms) is stored by
+    create() — columns, the two indexes built by the code's loops, nnz, sum — as a collection
+    that satisfies ValidCSR and holds exactly those pixels. *)
+Theorem create_valid n_chroms chroms px symm :
+  0 <= n_chroms -> NonDecr chroms -> (forall x, In x chroms -> 0 <= x < n_chroms) ->
+  SSorted px ->
+  (forall p, In p px -> 0 <= row p < zlen chroms /\ 0 <= col p < zlen chroms) ->
+  (symm = true -> forall p, In p px -> row p <= col p) ->
+  exists c, create_model n_chroms chroms px symm = Some c /\ ValidCSR c /\ pixels_of c = px
+            /\ nbins c = zlen chroms /\ nnz c = zlen px /\ symmetric_upper c = symm.
+Proof.
+  intros Hnc Hcs Hcr Hs Hr Hu. unfold create_model.
+  assert (Hrows : Forall (fun x => 0 <= x) (map row px)).
+  { rewrite Forall_map, Forall_forall. intros p Hp. apply Hr in Hp. lia. }
+  assert (Hch : Forall (fun x => 0 <= x) chroms).
+  { rewrite Forall_forall. intros x Hx. apply Hcr in Hx. lia. }
+  rewrite index_bins_spec by (try assumption).
+  rewrite <- (zlen_map row px).
+  rewrite index_pixels_spec by (try assumption; try apply zlen_nonneg; now apply ssorted_rows_nondecr).
+  eexists. split; [reflexivity|].
+  unfold ValidCSR, pixels_of. cbn [bin1 bin2 counts nnz nbins nchroms bin_chrom bin1_offset chrom_offset sum symmetric_upper].
+  rewrite combine_rcv, !zlen_map. repeat split; auto; try (apply Hr; assumption); try (apply Hcr; assumption).
+Qed.
+
+(* ------------------------------------- the one-shot specification is a run-length encoding *)
+
+Fixpoint skip_eq (p : Z) (a : list Z) : list Z :=
+  match a with
+  | [] => []
+  | v :: r => if v =? p then skip_eq p r else a
+  end.
+
+Definition first_start (sv : list (Z * Z)) (n : Z) : Z :=
+  match sv with [] => n | (s, _) :: _ => s end.
+
+Definition dec (sv : list (Z * Z)) (n : Z) : list Z :=
+  rle_decode (rle_of_pairs n sv).
+
+Lemma skip_eq_len p a : zlen (skip_eq p a) <= zlen a.
+Proof.
+  induction a as [|v r IH]; cbn [skip_eq]; [lia|]. destruct (v =? p); rewrite ?zlen_cons; rewrite ?zlen_cons in *; lia.
+Qed.
+
+Lemma first_start_rle r : forall p k,
+  first_start (rle_from (Some p) k r) (k + zlen r) = k + (zlen r - zlen (skip_eq p r)).
+Proof.
+  induction r as [|v t IH]; intros p k; cbn [rle_from skip_eq differs].
+  - cbn [first_start]. rewrite zlen_nil. lia.
+  - destruct (v =? p) eqn:E; cbn [negb app].
+    + assert (v = p) by lia. subst v. rewrite zlen_cons.
+      replace (k + (1 + zlen t)) with (k + 1 + zlen t) by lia. rewrite IH. lia.
+    + cbn [first_start]. lia.
+Qed.
+
+Lemma repeat_skip_eq v r :
+  repeat v (Z.to_nat (zlen r - zlen (skip_eq v r))) ++ skip_eq v r = r.
+Proof.
+  induction r as [|x t IH]; cbn [skip_eq]; [reflexivity|].
+  destruct (x =? v) eqn:E.
+  - assert (x = v) by lia. subst x. pose proof (skip_eq_len v t). rewrite zlen_cons.
+    replace (Z.to_nat (1 + zlen t - zlen (skip_eq v t))) with (S (Z.to_nat (zlen t - zlen (skip_eq v t)))) by lia.
+    cbn [repeat app]. now rewrite IH.
+  - replace (zlen (x :: t) - zlen (x :: t)) with 0 by lia. reflexivity.
+Qed.
+
+Lemma dec_cons s v rest n :
+  dec ((s, v) :: rest) n = repeat v (Z.to_nat (first_start rest n - s)) ++ dec rest n.
+Proof.
+  unfold dec, rle_decode, rle_of_pairs. cbn [map fst snd app].
+  destruct rest as [|[s' v'] rest']; cbn [map fst snd app diffs combine concat first_start]; reflexivity.
+Qed.
+
+Lemma dec_rle_from a : forall prev off,
+  dec (rle_from prev off a) (off + zlen a) =
+  match prev with None => a | Some p => skip_eq p a end.
+Proof.
+  induction a as [|v r IH]; intros prev off.
+  - cbn [rle_from]. destruct prev; reflexivity.
+  - cbn [rle_from]. rewrite zlen_cons. replace (off + (1 + zlen r)) with (off + 1 + zlen r) by lia.
+    destruct (differs prev v) eqn:Ed; cbn [app].
+    + rewrite dec_cons, IH, first_start_rle.
+      pose proof (skip_eq_len v r).
+      replace (Z.to_nat (off + 1 + (zlen r - zlen (skip_eq v r)) - off))
+        with (S (Z.to_nat (zlen r - zlen (skip_eq v r)))) by lia.
+      cbn [repeat app]. rewrite repeat_skip_eq.
+      destruct prev as [p|]; [|reflexivity]. cbn [differs] in Ed. cbn [skip_eq].
+      destruct (v =? p); [discriminate|reflexivity].
+    + destruct prev as [p|]; cbn [differs] in Ed; [|discriminate].
+      rewrite IH. cbn [skip_eq]. destruct (v =? p) eqn:E; [|discriminate].
+      assert (v = p) by lia. now subst.
+Qed.
+
+(** decoding the specification gives the array back *)
+Theorem rle_decode_spec a : rle_decode (rle_spec a) = a.
+Proof. unfold rle_spec. exact (dec_rle_from a None 0). Qed.
+
+(** neighbouring runs carry different values (runs are maximal) *)
+Fixpoint AdjDistinct (prev : option Z) (l : list Z) : Prop :=
+  match l with
+  | [] => True
+  | v :: t => differs prev v = true /\ AdjDistinct (Some v) t
+  end.
+
+Lemma rle_from_adjdistinct a : forall prev off, AdjDistinct prev (map snd (rle_from prev off a)).
+Proof.
+  induction a as [|v r IH]; intros prev off; cbn [rle_from map]; [exact I|].
+  destruct (differs prev v) eqn:Ed; cbn [app map snd AdjDistinct].
+  - split; [exact Ed|apply IH].
+  - destruct prev as [p|]; cbn [differs] in Ed; [|discriminate].
+    assert (v = p) by lia. subst v. apply IH.
+Qed.
+
+Lemma rle_from_starts_lb a : forall prev off,
+  Forall (fun s => off <= s) (map fst (rle_from prev off a) ++ [off + zlen a]).
+Proof.
+  induction a as [|v r IH]; intros prev off; cbn [rle_from map app].
+  - constructor; [rewrite zlen_nil; lia|constructor].
+  - rewrite zlen_cons. replace (off + (1 + zlen r)) with (off + 1 + zlen r) by lia.
+    specialize (IH (Some v) (off + 1)).
+    destruct (differs prev v); cbn [app map fst].
+    + constructor; [lia|]. eapply Forall_impl; [|exact IH]. cbn. intros; lia.
+    + eapply Forall_impl; [|exact IH]. cbn. intros; lia.
+Qed.
+
+Lemma rle_from_starts_incr a : forall prev off,
+  StronglySorted Z.lt (map fst (rle_from prev off a) ++ [off + zlen a]).
+Proof.
+  induction a as [|v r IH]; intros prev off; cbn [rle_from map app].
+  - constructor; constructor.
+  - rewrite zlen_cons. replace (off + (1 + zlen r)) with (off + 1 + zlen r) by lia.
+    destruct (differs prev v); cbn [app map fst].
+    + constructor; [apply IH|].
+      pose proof (rle_from_starts_lb r (Some v) (off + 1)) as H.
+      eapply Forall_impl; [|exact H]. cbn. intros; lia.
+    + apply IH.
+Qed.
+
+Lemma diffs_pos l : StronglySorted Z.lt l -> Forall (fun d => 1 <= d) (diffs l).
+Proof.
+  induction l as [|x t IH]; intros H; cbn [diffs]; [constructor|].
+  destruct t as [|y t']; [constructor|].
+  inversion H as [|? ? Ht Hall]; subst. constructor.
+  - inversion Hall; subst. lia.
+  - apply IH. exact Ht.
+Qed.
+
+(** the specification is *the* run-length encoding: it decodes to the array, its runs are
+    non-empty and maximal, and its starts are strictly increasing from 0 *)
+Theorem rle_spec_characterised a :
+  let '(starts, lengths, values) := rle_spec a in
+  rle_decode (starts, lengths, values) = a /\
+  AdjDistinct None values /\
+  Forall (fun l => 1 <= l) lengths /\
+  StronglySorted Z.lt (starts ++ [zlen a]) /\
+  length starts = length values /\ length lengths = length values.
+Proof.
+  pose proof (rle_decode_spec a) as Hd. unfold rle_spec, rle_of_pairs in *.
+  split; [exact Hd|]. split; [apply rle_from_adjdistinct|].
+  pose proof (rle_from_starts_incr a None 0) as Hi. cbn [Z.add] in Hi.
+  split; [now apply diffs_pos|]. split; [exact Hi|].
+  rewrite !map_length. split; [reflexivity|].
+  generalize (rle_from None 0 a) (zlen a). intros sv n.
+  induction sv as [|[s v] t IH]; [reflexivity|].
+  cbn [map fst app length]. destruct t as [|[s' v'] t']; [reflexivity|].
+  cbn [map fst app diffs length] in *. now rewrite IH.
+Qed.
+
+(* --------------------------------------------- bin-type / bin-size attributes (T5) *)
+From Cooler Require Import Model.Bins Proofs.BinsProofs.
+
+(** the recorded bin type is "fixed" exactly when a bin size is recorded, and a recorded bin
+    size is true of the stored table (C20): every chromosome is the ideal b-tiling *)
+Theorem info_consistent blocks fixed bs :
+  ValidBlocks blocks -> info_bins (concat blocks) = (fixed, bs) ->
+  (fixed = true <-> exists b, bs = Some b) /\
+  (fixed = false <-> bs = None) /\
+  bs = get_binsize (concat blocks) /\
+  forall b, bs = Some b ->
+    1 <= b /\ forall i blk, nth_error blocks i = Some blk ->
+      blk = ideal_chrom (Z.of_nat i) (chrom_end blk) b.
+Proof.
+  intros HV H. unfold info_bins in H.
+  destruct (get_binsize (concat blocks)) as [b0|] eqn:E; inversion H; subst.
+  - split; [split; [eauto|reflexivity]|]. split; [split; discriminate|]. split; [reflexivity|].
+    intros b Hb. inversion Hb; subst. now apply binsize_truthful.
+  - split; [split; [discriminate|intros [b Hb]; discriminate]|]. split; [tauto|]. split; [reflexivity|].
+    intros b Hb. discriminate.
+Qed.
+
+(* ------------------------------------ ValidCSR as an invariant of histories (T4, conditional) *)
+
+Definition GoodStream (s : Z * list Z * list pixel * bool) : Prop :=
+  let '(nc, chroms, px, symm) := s in
+  0 <= nc /\ NonDecr chroms /\ (forall x, In x chroms -> 0 <= x < nc) /\
+  SSorted px /\
+  (forall p, In p px -> 0 <= row p < zlen chroms /\ 0 <= col p < zlen chroms) /\
+  (symm = true -> forall p, In p px -> row p <= col p).
+
+Section History.
+  (** an operation (create, load, merge, coarsen, one zoom level, one cell of a scool ...)
+      reads the collections written so far and hands create() a bin table and a pixel stream *)
+  Variable op : Type.
+  Variable plan : op -> list cooler -> Z * list Z * list pixel * bool.
+  (** the producer theorems (C06-C09, C17): from valid inputs every operation streams strictly
+      sorted, in-range, upper-triangular pixels over a valid bin table *)
+  Hypothesis producers_ok : forall o st, Forall ValidCSR st -> GoodStream (plan o st).
+
+  Definition step (st : list cooler) (o : op) : list cooler :=
+    let '(nc, chroms, px, symm) := plan o st in
+    match create_model nc chroms px symm with
+    | Some c => st ++ [c]
+    | None => st
+    end.
+  Definition run_history (ops : list op) (init : list cooler) : list cooler := fold_left step ops init.
+
+  Theorem history_valid ops : forall init,
+    Forall ValidCSR init -> Forall ValidCSR (run_history ops init) /\
+    (length (run_history ops init) = length init + length ops)%nat.
+  Proof.
+    unfold run_history. induction ops as [|o t IH]; intros init Hi; cbn [fold_left length].
+    - split; [exact Hi|lia].
+    - pose proof (producers_ok o init Hi) as Hg. unfold step at 2 4.
+      destruct (plan o init) as [[[nc chroms] px] symm]. cbn in Hg.
+      destruct Hg as (H1 & H2 & H3 & H4 & H5 & H6).
+      destruct (create_valid nc chroms px symm H1 H2 H3 H4 H5 H6) as (c & Ec & Hv & _).
+      rewrite Ec.
+      assert (Hi' : Forall ValidCSR (init ++ [c])) by (apply Forall_app; split; [exact Hi|constructor; [exact Hv|constructor]]).
+      destruct (IH _ Hi') as [IH1 IH2]. split; [exact IH1|]. rewrite IH2, app_length. cbn [length]. lia.
+  Qed.
+End History.
